@@ -16,6 +16,9 @@ RULE = ('Seeded client programs from a combinator family (state pytree mixing fl
         'compared with a plain eager Python fold of the same three functions. Second family: multi-threaded schedules of backend '
         'selection operations checked against a per-thread shadow stack. Non-trivial program case: >=2 distinct batch counts and, '
         'for pmap, at least one padding client or padding batch; distinct by (program, collection shape, backend/device count).')
+# Configuration shards (vmon.run): the cases of the plain shard with the given index are run once more in a process started
+# under an environment the library is supposed to be indifferent to.
+CONFIGS = {'quick': [], 'thorough': [{'name': 'rbg-prng', 'env': {'JAX_DEFAULT_PRNG_IMPL': 'rbg'}, 'shard': 3}]}
 ASSUMPTIONS = [
     'the reference is the definition itself: final(shared, fold(step, init(shared, cin), batches)) evaluated eagerly under '
     'jax.disable_jit() by a harness loop (no backend code involved)',
